@@ -191,6 +191,10 @@ def run(ctx, chk):
 
     # ---- (B) release ---------------------------------------------------------------
     check_release(chk, prog, eff, cache, ctors, off)
+    chk.rule("C04.no-stale-block", "nothing is freed twice through a stale field: after freeing a block read from a heap field the field is "
+                                   "overwritten or its owner freed on the same path (reallocation wrappers inlined)")
+    from props.c06 import check_dangling
+    check_dangling(chk, "C04.no-stale-block", prog, eff, cache)
     chk.rule("C04.covered", "a slot that receives a counted reference lies below the container's element count when the writing "
                             "function returns (the release routine walks exactly [0, count))")
     check_covered(chk, "C04.covered", prog, eff, cache)
